@@ -53,6 +53,8 @@ def spec_outcome(nr, dr, cutoff):
     if any(v is not None and v <= 0 for v in vals):
         return ("config_error",)
     n, d, c = vals
+    if n is not None and n < 2:
+        return ("config_error",)
     if n is not None and d is not None and c is not None:
         return ("config_error",)
     if d is not None and n is None and c is None:
@@ -67,14 +69,14 @@ def spec_outcome(nr, dr, cutoff):
 
 
 def check(run):
-    run.rule = ("(1) all 5x4x4 presence/sign patterns of (nr, dr, cutoff) for both grids; (2) commensurate decimal pairs: steps %d values 1e-4..0.5 as decimal strings x k "
+    run.rule = ("(1) all 6x4x4 presence/sign patterns of (nr, dr, cutoff) for both grids; (2) commensurate decimal pairs: steps %d values 1e-4..0.5 as decimal strings x k "
                 "(quick: random k in 1..20000 + all k <= 40; thorough: every k <= 20000) for both grids, implementation vs Lean Float model on the same doubles (exact integer "
                 "comparison) and vs k+1; (3) defaults; (4) row counts of written tables for all text targets" % len(STEPS))
     run.assumptions += ["Python float(str) is correctly rounded decimal->binary64; Lean Float ops / toUInt64 / round are IEEE binary64 (same libm-free operations)",
-                        "nr = 1 (a one-point grid) is C16's malformed-input case and is not part of the decision table here"]
+                        "nr = 1 (a one-point grid, C16's malformed-input case) is refused by _check_positive: part of the decision table and of the model (tooFewRows)"]
     rng = run.rng
     # ---- (1) decision table ---------------------------------------------------------------------------------------------
-    nrs = [None, "-3", "0", "5", "12"]
+    nrs = [None, "-3", "0", "1", "5", "12"]     # "1": a one-row grid cannot define a step - a configuration error since fix bb1d37e (model: CutErr.tooFewRows)
     drs = [None, "-0.5", "0.0", "0.5"]
     cuts = [None, "-2.0", "0.0", "2.0"]
     reqs, meta = [], []
@@ -255,6 +257,52 @@ def rows_written(run):
             if bad or abs(counts["last"] - float(cs)) > 1e-6 * float(cs):
                 run.fail("rows-written" if want == spec_rows(s, cs) else "cutoff-step-row-count",
                          "target %s, dr %s, cutoff %s, drho %s, cutoff_rho %s: table has %s, expected %d rows ending at the cutoff (%d density rows ending at cutoff_rho)" % (target, s, cs, s2, cs2, counts, want, k2 + 1), dict(potable_file=tsec + body))
+    after_failed_write(run)
+
+
+def after_failed_write(run):
+    """A tabulation object whose first write() failed part-way (a formula leaving its domain) is written again: whatever it then emits must be the whole
+    grid - exactly nr rows ending at the cutoff - or nothing (seed C11_6: a half-filled workbook kept from the failed attempt was saved with fewer rows)."""
+    from atsim.potentials.config import Configuration
+    from tracers import lammps_blocks_raw, dlpoly_raw
+    import eamlib
+    rng = run.rng
+    for target in ["excel", "LAMMPS", "GULP", "DL_POLY"]:
+        for _ in range(run.n(2, 10)):
+            k = 4 * rng.randint(3, 12) - 1 if target == "DL_POLY" else rng.randint(6, 40)
+            step = rng.choice(["0.25", "0.1", "0.05"])
+            cs = impl.decimal_str(Fr(step) * k)
+            edge = impl.decimal_str(Fr(step) * rng.randint(2, k - 1))
+            cfg = ("[Tabulation]\ntarget : %s\ndr : %s\ncutoff : %s\n[Potential-Form]\nedge(r, m) = pymath.sqrt(m - r)\n[Pair]\nA-B : as.buck 1000.0 0.3 10.0\nB-B : edge %s\n" % (target, step, cs, edge))
+            binary = target == "excel"
+            tab = Configuration().read(io.StringIO(cfg))
+            outs = []
+            for attempt in range(3):
+                buf = io.BytesIO() if binary else io.StringIO()
+                try:
+                    tab.write(buf)
+                    outs.append(buf.getvalue())
+                except Exception:
+                    outs.append(None)
+            run.case(key=("after-failed-write", target, step, k, edge), kind="rows-after-failed-write/" + target)
+            run.traces += 1
+            if outs[0] is not None:
+                continue        # (the evaluation did not fail: nothing to learn here)
+            for attempt, o in enumerate(outs[1:], start=2):
+                if o is None or len(o) == 0:
+                    continue
+                if binary:
+                    rows = len(dict((sh["name"], sh) for sh in eamlib.excel_tokens_raw(o))["Pair"]["rows"])
+                elif target == "LAMMPS":
+                    rows = min(len(b[4]) for b in lammps_blocks_raw(o)) + 1
+                elif target == "GULP":
+                    rows = min(len([l for l in blk.split("\n")[2:] if l.strip()]) for blk in o.split("spline")[1:])
+                else:
+                    rows = min(sum(len(r) for r in blk[2]) // 2 for blk in dlpoly_raw(o)[3])
+                if rows != k + 1:
+                    run.fail("rows-written", "target %s, dr %s, cutoff %s: write() attempt %d on a tabulation whose first write() failed emitted a table with %d rows, expected %d (or nothing)" % (
+                        target, step, cs, attempt, rows, k + 1), dict(potable_file=cfg, attempt=attempt))
+                    break
 
 
 def spec_rows(s, cs):
